@@ -61,6 +61,9 @@ pub enum Op {
     /// the peer keeps sending on a stream the application has stopped (it has not seen
     /// STOP_SENDING yet): a little data, local stop, then data up to the stream limit
     StopMore(u8),
+    /// a control frame naming a peer-initiated bidirectional stream: kind (0 MAX_STREAM_DATA,
+    /// 1 STOP_SENDING, 2 STREAM_DATA_BLOCKED), slot (3 = bidi 0, 4 = bidi 1, 5 = bidi 2^30)
+    Ctl(u8, u8),
 }
 
 fn expand(l: &Lim, op: &Op) -> Vec<Op> {
@@ -129,6 +132,13 @@ pub fn alphabet(l: &Lim) -> Vec<Op> {
             v.push(Op::Read(slot, usize::MAX));
             v.push(Op::Read(slot, 7));
             v.push(Op::Stop(slot));
+        }
+    }
+    for kind in [0u8, 1, 2] {
+        for slot in [3u8, 4, 5] {
+            if kind == 0 || slot != 5 {
+                v.push(Op::Ctl(kind, slot));
+            }
         }
     }
     v.push(Op::Whole(0));
@@ -218,6 +228,8 @@ fn slot_id(vs: bool, slot: u8) -> u64 {
         0 => stream_id(vs, false, 0),
         1 => stream_id(vs, false, 1),
         2 => stream_id(vs, false, 2),
+        4 => stream_id(vs, true, 1),
+        5 => stream_id(vs, true, 1 << 30),
         _ => stream_id(vs, true, 0),
     }
 }
@@ -414,6 +426,33 @@ pub fn run_seq(base: Instant, l: &Lim, vs: bool, seq: &[Op], dump: bool) -> Resu
                         }
                     }
                     let d = pup.packet(2, &[WFrame::ResetStream { id, code: 9, final_size: *fsize }]);
+                    p.w.inject(src, dst, d, Duration::ZERO);
+                }
+                Op::Ctl(kind, slot) => {
+                    let id = slot_id(vs, *slot);
+                    let index = wire::sid_index(id);
+                    if index >= m.entitled_streams(0) {
+                        // RFC 9000 4.6: a frame with a stream ID exceeding the limit is a
+                        // STREAM_LIMIT_ERROR; a frame that would open the stream (MAX_STREAM_DATA) must
+                        // be refused, one that opens nothing may also be ignored
+                        if *kind == 0 {
+                            expect_close.push(SLIM);
+                        } else {
+                            lenient_slim = true;
+                        }
+                    } else {
+                        if index >= m.adv_max_streams[0] {
+                            lenient_slim = true;
+                        }
+                        let sw = m.stream_window;
+                        m.streams.entry(id).or_insert_with(|| MStream { adv: sw, got: vec![false; 70_000], ..Default::default() });
+                    }
+                    let f = match kind {
+                        0 => WFrame::MaxStreamData { id, max: 5000 },
+                        1 => WFrame::StopSending { id, code: 3 },
+                        _ => WFrame::StreamDataBlocked { id, limit: 0 },
+                    };
+                    let d = pup.packet(2, &[f]);
                     p.w.inject(src, dst, d, Duration::ZERO);
                 }
                 Op::D(size) => {
@@ -724,6 +763,11 @@ pub fn run_seq(base: Instant, l: &Lim, vs: bool, seq: &[Op], dump: bool) -> Resu
             // buffered bound (probe): bytes accounted as received never exceed what was advertised
             let pr = slot_.conn.verif_probe().streams;
             let entitled = m.adv_max_data.max(m.entitled_hi);
+            for d in 0..2 {
+                if m.closed.is_none() && pr.next_remote[d] > pr.max_remote[d].max(m.entitled_streams(d)) {
+                    viol.push(("remote-stream-opened-beyond-limit".into(), format!("step {step} {op:?}: the endpoint counts {} peer-initiated {} streams as opened (its application can accept them) but it has granted only {}", pr.next_remote[d], if d == 0 { "bidirectional" } else { "unidirectional" }, pr.max_remote[d])));
+                }
+            }
             if m.closed.is_none() && pr.data_recvd > entitled {
                 viol.push(("received-beyond-limit".into(), format!("step {step}: data accounted as received {} exceeds both the advertised MAX_DATA {} and consumed + window {}", pr.data_recvd, m.adv_max_data, entitled)));
             }
@@ -826,7 +870,7 @@ pub fn main(args: &Args) -> ! {
     let thorough = args.tier == Tier::Thorough;
     let dl = deadline(if thorough { 1500 } else { 50 });
     let depth = if thorough { 4 } else { 3 };
-    rep.rule = format!("E3: every sequence of length {depth} over an alphabet of puppet frames (STREAM at offsets one below / at / one above the stream limit, FINs, RESET_STREAM with final sizes below / at / above, streams at index limit-1 / limit, DATAGRAM of buffer-1 / buffer / buffer+1 bytes, CRYPTO ending at / beyond the crypto buffer) interleaved with local operations (read(n), stop, set_receive_window smaller/larger, set_max_concurrent_streams, datagram recv), for four limit configurations, against server victims (client victims for depth-2 prefixes). A reference model tracks what the victim advertised (transport parameters + MAX_* frames decoded from its output) and what its application consumed: a frame inside every advertised limit must be accepted, the first frame outside must close with exactly the error code of a violated limit, reads must return exactly the model's bytes, every MAX_DATA / MAX_STREAM_DATA must be <= consumed + window, data accounted as received never exceeds the advertised limit. Sequences are pruned after the connection closes. Non-trivial = sequence in which at least one frame reached a limit boundary or closed the connection; distinct = distinct trace hashes.");
+    rep.rule = format!("E3: every sequence of length {depth} over an alphabet of puppet frames (STREAM at offsets one below / at / one above the stream limit, FINs, RESET_STREAM with final sizes below / at / above, streams at index limit-1 / limit, MAX_STREAM_DATA / STOP_SENDING / STREAM_DATA_BLOCKED naming peer-initiated bidirectional streams at index 0 / 1 / 2^30 (within and beyond the granted count; quick: once per sequence among a core of the alphabet), DATAGRAM of buffer-1 / buffer / buffer+1 bytes, CRYPTO ending at / beyond the crypto buffer) interleaved with local operations (read(n), stop, set_receive_window smaller/larger, set_max_concurrent_streams, datagram recv), for four limit configurations, against server victims (client victims for depth-2 prefixes). A reference model tracks what the victim advertised (transport parameters + MAX_* frames decoded from its output) and what its application consumed: a frame inside every advertised limit must be accepted, the first frame outside must close with exactly the error code of a violated limit, reads must return exactly the model's bytes, every MAX_DATA / MAX_STREAM_DATA must be <= consumed + window, data accounted as received never exceeds the advertised limit, peer-initiated streams counted as opened never exceed the granted count. Sequences are pruned after the connection closes. Non-trivial = sequence in which at least one frame reached a limit boundary or closed the connection; distinct = distinct trace hashes.");
     let mut tasks: Vec<(usize, bool, Vec<usize>)> = vec![];
     let ls = lims();
     for (li, l) in ls.iter().enumerate() {
@@ -838,12 +882,16 @@ pub fn main(args: &Args) -> ! {
         let mut idx = vec![0usize; depth];
         loop {
             let seq: Vec<&Op> = idx.iter().map(|i| &a[*i]).collect();
-            let has_frame = seq.iter().any(|o| matches!(o, Op::S(..) | Op::R(..) | Op::D(..) | Op::C(..) | Op::Whole(..) | Op::DFill | Op::StopMore(..) | Op::OrdThenUnord(..)));
+            let has_frame = seq.iter().any(|o| matches!(o, Op::S(..) | Op::R(..) | Op::D(..) | Op::C(..) | Op::Whole(..) | Op::DFill | Op::StopMore(..) | Op::OrdThenUnord(..) | Op::Ctl(..)));
             // a sequence that starts with a local operation on nothing (read / stop of a stream that does
             // not exist yet, recv on an empty datagram queue) is the sequence of its remaining operations,
             // which is enumerated anyway as the prefix of others
             let leading_noop = depth > 1 && matches!(seq[0], Op::Read(..) | Op::ReadU(..) | Op::Stop(..) | Op::RecvDgram);
-            if has_frame && !leading_noop {
+            // quick tier: a control frame on a (possibly unopened) stream appears once per sequence,
+            // among operations that move stream counts, windows or the named stream itself
+            let n_ctl = seq.iter().filter(|o| matches!(o, Op::Ctl(..))).count();
+            let ctl_ok = thorough || n_ctl == 0 || (n_ctl == 1 && seq.iter().all(|o| matches!(o, Op::Ctl(..) | Op::S(3, ..) | Op::S(0, 0, 10, false) | Op::R(0, 5) | Op::Read(0, usize::MAX) | Op::Stop(0) | Op::Whole(..) | Op::MaxUni(..) | Op::Win(..) | Op::D(10) | Op::C(100, 10))));
+            if has_frame && !leading_noop && ctl_ok {
                 tasks.push((li, true, idx.clone()));
                 if depth <= 3 && idx[depth - 1] == 0 {
                     // client victim for the depth-1 prefix
